@@ -39,7 +39,7 @@ def run_one(m, repo='/repo'):
                 continue
             r = subprocess.run([sys.executable, os.path.join(VERIF, 'check'), c['property_id'], '--tier', 'quick'], env=env, stdout=subprocess.PIPE, stderr=subprocess.STDOUT, text=True)
             if r.returncode != 0:
-                res[c['property_id']] = (r.returncode, [l for l in r.stdout.splitlines() if l.startswith(('  instance', 'ANALYSIS-BROKEN'))][:3])
+                res[c['property_id']] = (r.returncode, [l for l in r.stdout.splitlines() if l.startswith(('  instance', 'ANALYSIS-BROKEN')) or (('Error' in l or 'Exception' in l) and not l.startswith(' '))][:4])
         return {'id': m['id'], 'status': 'quiet' if not res else ('false-alarm' if any(v[0] == 1 for v in res.values()) else 'anchor-lost'), 'non_zero': res}
     finally:
         shutil.rmtree(tmp, ignore_errors=True)
